@@ -318,6 +318,25 @@ std::string read_file(const std::string& kind, const std::string& data) {
         CDNS::CdnsReader reader(*in);
         out += rec::show_preamble(reader.m_file_preamble);
         bool eof = false;
+        if (kind == "R") {
+            // ONE block object for the whole file: every block is read into it (CdnsBlockRead::read on a used object) ...
+            CDNS::CdnsBlockRead b;
+            while (true) {
+                if (reader.m_indef_blocks && reader.m_decoder.peek_type() == CDNS::CborType::BREAK) { reader.m_decoder.read_break(); break; }
+                if (!reader.m_indef_blocks && reader.m_blocks_read == reader.m_blocks_count) break;
+                b.read(reader.m_decoder, reader.m_file_preamble.m_block_parameters);
+                reader.m_blocks_read++;
+                out += " " + dump_block(b);
+            }
+        } else if (kind == "A") {
+            // ... or every block is ASSIGNED to it (block = reader.read_block(eof), the loop of the documentation)
+            CDNS::CdnsBlockRead b;
+            while (true) {
+                b = reader.read_block(eof);
+                if (eof) break;
+                out += " " + dump_block(b);
+            }
+        } else
         while (true) {
             CDNS::CdnsBlockRead b = reader.read_block(eof);
             if (eof) break;
